@@ -294,6 +294,35 @@ def gen_temp_gminus(rng):
     return "tempxspec " + " ".join(str(B(v)) for v in sc) + " %d " % rng.choice([1, 2, 3, 5]) + " ".join(sp)
 
 
+def force_transition(rng, raw_op):
+    """inside a history: sometimes switch the radiation off (exactly zero flux), make the cell a
+    vacuum or drop the flux below the jH < 1e-20 shortcut, so that consecutive updates take
+    different branches of the calculators"""
+    r = rng.random()
+    if r > 0.3:
+        return raw_op
+    w = raw_op.split()
+    nidx = 3 if w[0] == "tempxraw" else 2
+    if r < 0.14:
+        w[1] = str(B(0.0))
+        if w[0] == "tempxraw":
+            w[2] = str(B(0.0))
+    elif r < 0.22:
+        w[nidx] = str(B(0.0))
+    else:
+        w[1] = str(B(10.0 ** rng.uniform(-12, 1)))
+        if w[0] == "tempxraw":
+            w[2] = str(B(vlib.bits2f(w[1]) * 6.626e-34))
+    return " ".join(w)
+
+
+HISTORY_OPS = ("cell", "cellx", "temp", "tempx", "abort")
+
+
+def group_start(op):
+    return op.split(" ", 1)[0] not in HISTORY_OPS
+
+
 # ----------------------------------------------------------------------------- comparison
 
 def cmp(a, b, op):
@@ -326,6 +355,7 @@ def run(ctx):
         "h0_antitone_J / h0_monotone_nalpha hold within each branch of the code and across the branch switch bb = 1e-10 only up to the relative jump 2/C <= 5.1e-11 (exact monotonicity is false there: h0_switch_not_antitone); the oracle on the implementation allows 1e-9 relative",
         "temperature_range: balance function uninterpreted; needs minimum ionized temperature <= 30000 K; when the loop body never runs (epsilon >= 1 or maximum iterations 0) the initial guess (> 4000 K) is returned, so the lower bound is min(T_min_ionized, initial guess)",
         "metals_range assumes n_e > 0 and positive recombination rates (positive denominators); n_e = 0 is excluded by the guard `if (ne > 0.)` of calculate_ionization_state (exercised by the cell ops); compute_cooling_and_heating_balance still evaluates the metals with n_e = 0 internally (NaN inside, masked by the h0 == 1 reset) — only the final cell state is checked",
+        "independence of the previous cell state: proved in the model only for calculate_temperature w.r.t. the stored coolant fractions (cell_output_independent_of_previous_state); for calculate_ionization_state the model has no previous-state argument (trivial), so that every C++ branch assigns every fraction rests on the re-used-cell vs fresh-sentinel-cell oracle of the correspondence run",
         "cmac_assert is compiled out (HAVE_ASSERTIONS undefined in the configured build) and not modelled",
         "line cooling, heating terms and the rate tables are inputs of the model (values produced by the real classes on every run), not modelled",
     ]
@@ -339,12 +369,22 @@ def run(ctx):
     raw += [gen_h0m(rng) for _ in range(1500 * nb)]
     raw += [gen_met(rng) for _ in range(1200 * nb)]
     raw += [gen_hhe(rng) for _ in range(2500 * nb)]
-    raw += [gen_cell(rng) for _ in range(2500 * nb)]
-    raw += [gen_temp(rng) for _ in range(900 * nb)]
-    raw += [gen_temp_gminus(rng) for _ in range(400 * nb)]
+    # `cell` / `temp` updates come as HISTORIES on one re-used cell: newcell, then 3-6 updates
+    # (hard field -> zero flux -> soft field -> vacuum -> ...); the harness requires after every
+    # update that the re-used cell equals a fresh sentinel-filled cell given the same inputs
+    upd = [gen_cell(rng) for _ in range(2500 * nb)] + [gen_temp(rng) for _ in range(900 * nb)] + \
+          [gen_temp_gminus(rng) for _ in range(400 * nb)]
+    rng.shuffle(upd)
+    k = 0
+    while k < len(upd):
+        m = rng.randint(3, 6)
+        raw.append("newcell")
+        for u in upd[k:k + m]:
+            raw.append(force_transition(rng, u))
+        k += m
     ctx.cov["rule"] = ("generated estimator sets: line spectra (1-5 frequencies between the H threshold and 4x (some up to 100x), with/without He-ionizing photons, exact thresholds) x flux 1e-5..1e18 and exactly 0, "
                        "n in {0} u 1e4..1e12 m^-3, T 1e2..1e5 K, He abundance 0..0.15 (incl. 0), metal abundances 0..1e-3, shipped Verner/charge-transfer/line-cooling tables; "
-                       "plus edge families (branch switch C=4e10, floor, jH below the 1e-20 shortcut, n_e = 0, all rates 0, zero iterations, clamps) and inputs outside the domain (x ops: correspondence only); "
+                       "cell/temp updates run as histories of 3-6 updates on ONE re-used cell (with forced zero-flux / vacuum / sub-shortcut transitions), each compared with a fresh sentinel-filled cell; plus edge families (branch switch C=4e10, floor, jH below the 1e-20 shortcut, n_e = 0, all rates 0, zero iterations, clamps) and inputs outside the domain (x ops: correspondence only); "
                        "distinct = different raw op text; non-trivial = not a special-case shortcut")
     ctx.cov["tolerance_rel"] = REL
     # raw -> full (adds table values and the real balance function's values)
@@ -359,6 +399,7 @@ def run(ctx):
     if not ok:
         return
     n, impl, model, orc = ctx.correspond("ionbalance", h, vlib.driver("drv_c06"), full, cmp=cmp,
+                                         group_start=group_start,
                                          oracle_key=lambda what, grp: what.split()[0])
     exact = 0
     per = {}
@@ -367,6 +408,9 @@ def run(ctx):
     for r, op, a, b in zip(raw, full, impl, model):
         ctx.count()
         kind = op.split(" ", 1)[0]
+        if kind == "newcell":
+            ctx.branch("history-start")
+            continue
         p = per.setdefault(kind, [0, 0])
         p[0] += 1
         if a == vlib.strip_branch(b):
@@ -408,6 +452,6 @@ def replay(ctx, path):
 
 MANIFEST = dict(
     category="proof",
-    text="Lean theorems over the reals about the generic-arithmetic model of IonizationStateCalculator / TemperatureCalculator: hydrogen closed form solves x^2-(2+C)x+1=0 (h0_solves_balance), lies in [1e-14,1] for every input (h0_range), is antitone in J and monotone in n*alpha (h0_antitone_J, h0_monotone_nalpha; exact within a branch, up to 5.1e-11 relative across the Taylor switch, where strict monotonicity is refuted by h0_switch_not_antitone); every metal fraction in [0,1] and stage sums <= 1 for non-negative rates and positive denominators (metals_range); one H/He loop body maps (0,1)x[0,1] into [0,1]^2 when ch >= 0 (hHe_iterate_range_partial); for EVERY balance function, tolerance and iteration count the returned temperature is 500 K or in [min(T_min, initial guess), 30000 K] (temperature_range). The same definitions instantiated at Float agree with the real static functions and calculate_temperature (shipped tables) to rel 1e-10; oracles on the implementation: finiteness, ranges, stage sums, T bounds, abort (forked child), H-only balance residual and monotonicity.",
+    text="Lean theorems over the reals about the generic-arithmetic model of IonizationStateCalculator / TemperatureCalculator: hydrogen closed form solves x^2-(2+C)x+1=0 (h0_solves_balance), lies in [1e-14,1] for every input (h0_range), is antitone in J and monotone in n*alpha (h0_antitone_J, h0_monotone_nalpha; exact within a branch, up to 5.1e-11 relative across the Taylor switch, where strict monotonicity is refuted by h0_switch_not_antitone); every metal fraction in [0,1] and stage sums <= 1 for non-negative rates and positive denominators (metals_range); one H/He loop body maps (0,1)x[0,1] into [0,1]^2 when ch >= 0 (hHe_iterate_range_partial); for EVERY balance function, tolerance and iteration count the returned temperature is 500 K or in [min(T_min, initial guess), 30000 K] (temperature_range); the result of calculate_temperature does not depend on the coolant fractions stored in the cell before the call (cell_output_independent_of_previous_state). The same definitions instantiated at Float agree with the real static functions and calculate_temperature (shipped tables) to rel 1e-10; oracles on the implementation: finiteness, ranges, stage sums, T bounds, abort (forked child), H-only balance residual and monotonicity, and after every update of a 3-6 step history on ONE re-used cell: all 14 fractions and the temperature equal those of a fresh sentinel-filled (0.123) cell given the same inputs (outputs not reassigned on some branch).",
     note="PARTIAL: convergence of the H/He fixed point within 20 iterations (no cmac_error), ch >= 0 for the shipped tables and absence of aborts in calculate_temperature are searched, not proved. Trusted: Lean kernel + 3 axioms; hand model (tied by the Float correspondence); exact-arithmetic theorems (rounding only bounded empirically); line cooling / heating / rate tables enter as values computed by the real classes; cmac_assert compiled out.",
     technique="Lean 4 proofs (field_simp / nlinarith / sqrt lemmas, induction over the iteration count with an uninterpreted balance function) + Float differential correspondence against the real C++ with forked-child abort capture")
